@@ -5,7 +5,7 @@
    Reading (DESIGN 4/C02): at the evaluation point every module is its Jacobian, so a module carries a
    tangent map m_fwd (what the response does to tangents) and the map m_adj that its _sensitivity implements.
    Arrays are flattened to lists; a slice is the list of flat positions it selects. *)
-From Coq Require Import List Arith Bool.
+From Coq Require Import List Arith Bool ZArith.
 From Pymoto Require Import Base.Num.
 Import ListNotations.
 
@@ -286,12 +286,69 @@ Section NetModel.
   Definition linmod_ok (dims : nat -> nat) (ins : list ref) (outs : list nat) (L : lin) : bool :=
     lin_ok L && forallb (wt_ref dims) ins
     && list_eqb_nat (l_idims L) (map (ref_dim dims) ins) && list_eqb_nat (l_odims L) (map dims outs).
+
+  (* ---- finite descriptions used by the case files and the examples *)
+  Definition env_of (l : list vec) : tenv := fun s => nth s l [].
+  Definition cenv_of (l : list (option vec)) : cenv := fun s => nth s l None.
+  Definition dims_of (l : list nat) : nat -> nat := fun s => nth s l 0.
+  Definition show_t (N : nat) (t : tenv) : list vec := map t (seq 0 N).
+  Definition show_c (N : nat) (c : cenv) : list (option vec) := map c (seq 0 N).
+
+  (* a network described by data: block-matrix modules, possibly nested *)
+  Inductive stree : Type :=
+  | SMod (ins : list ref) (outs : list nat) (L : lin)
+  | SNet (l : list stree).
+
+  Fixpoint to_node (s : stree) : node :=
+    match s with
+    | SMod ins outs L => NMod (linmod ins outs L)
+    | SNet l => NNet ((fix go (l : list stree) : list node :=
+                         match l with [] => [] | x :: r => to_node x :: go r end) l)
+    end.
+
+  Fixpoint specs_ok (dims : nat -> nat) (s : stree) : bool :=
+    match s with
+    | SMod ins outs L => linmod_ok dims ins outs L
+    | SNet l => (fix go (l : list stree) : bool :=
+                   match l with [] => true | x :: r => specs_ok dims x && go r end) l
+    end.
+
+  (* everything the theorem asks of a described network *)
+  Definition net_ok (N : nat) (dims : nat -> nat) (s : stree) : bool :=
+    wf_net (flatten (to_node s)) && below N (flatten (to_node s)) && specs_ok dims s.
 End NetModel.
 
 Arguments module : clear implicits.
 Arguments node : clear implicits.
 Arguments lin : clear implicits.
+Arguments stree : clear implicits.
 Notation vec K := (list K) (only parsing).
 Notation mat K := (list (list K)) (only parsing).
 Notation tenv K := (nat -> list K) (only parsing).
 Notation cenv K := (nat -> option (list K)) (only parsing).
+
+(* ---- concrete instances over Z used by Props/C02.v (definitions only) *)
+Definition mkL (i o : list nat) (n : list bool) (b : list (nat * nat * list (list Z))) : lin Z :=
+  {| l_idims := i; l_odims := o; l_none := n; l_blocks := b |}.
+
+(* the 5-module diamond of corpus/C02/diamond.json *)
+Definition diamond_dims : list nat := [3; 2; 2; 2; 2; 1; 2; 1].
+Definition diamond : stree Z :=
+  SNet [SNet [SMod [RSlice 0 [0; 2]] [2] (mkL [2] [2] [false] [(0, 0, [[1; 2]; [0; -1]]%Z)]);
+              SMod [RSig 0; RSig 1] [3] (mkL [3; 2] [2] [false; false]
+                                             [(0, 0, [[1; 0; 2]; [-1; 1; 0]]%Z); (0, 1, [[2; 0]; [1; 1]]%Z)])];
+        SMod [RSig 2; RSig 3] [4] (mkL [2; 2] [2] [false; false]
+                                       [(0, 0, [[1; 1]; [0; 2]]%Z); (0, 1, [[-1; 0]; [2; 1]]%Z)]);
+        SNet [SMod [RSig 2; RSig 2] [5] (mkL [2; 2] [1] [false; false] [(0, 0, [[1; -1]]%Z); (0, 1, [[2; 1]]%Z)]);
+              SMod [RSig 4] [6; 7] (mkL [2] [2; 1] [false] [(0, 0, [[1; 2]; [0; 1]]%Z); (1, 0, [[1; 1]]%Z)])]].
+Definition diamond_seeds : list (option (list Z)) :=
+  [None; None; None; None; None; Some [2]; Some [1; -1]; None]%Z.
+(* what the implementation leaves on the eight signals (and what the model computes) *)
+Definition diamond_expected : list (option (list Z)) :=
+  [Some [7; 1; 13]; Some [3; 1]; Some [7; 3]; Some [1; 1]; Some [1; 1]; Some [2]; Some [1; -1]; None]%Z.
+
+(* inputs outside the admissible slices: a repeated position, a slice of a copying slice *)
+Definition bad_repeat : list (module Z) :=
+  [linmod [RSlice 0 [0; 0]] [1] (mkL [2] [2] [false] [(0, 0, [[1; 0]; [0; 1]]%Z)])].
+Definition bad_lost : list (module Z) :=
+  [linmod [RLost 0 [1; 2]] [1] (mkL [2] [2] [false] [(0, 0, [[1; 0]; [0; 1]]%Z)])].
